@@ -41,7 +41,26 @@ def main():
             with open(os.path.join(src, name + ".rs"), "w") as f:
                 f.write(body)
             progs[name] = dict(w=w, kind=kind, line=marked_line)
-    env = dict(os.environ, CARGO_NET_OFFLINE="true", CARGO_TARGET_DIR=os.path.join(V, ".cache", "witness", "target"))
+    # no incremental state (112 binaries x every scratch tree would pile up), and scratch trees (controls) build into a
+    # target directory of their own whose workspace-member artifacts are dropped before each run: only the compiled
+    # dependencies are kept
+    scratch = os.path.realpath(repo) != "/repo"
+    tdir = os.path.join(V, ".cache", "witness", "target-scratch" if scratch else "target")
+    env = dict(os.environ, CARGO_NET_OFFLINE="true", CARGO_TARGET_DIR=tdir, CARGO_INCREMENTAL="0")
+    os.makedirs(tdir, exist_ok=True)
+    import fcntl, glob
+    lock = open(os.path.join(tdir, ".witness-lock"), "w")
+    fcntl.flock(lock, fcntl.LOCK_EX)
+    if scratch:
+        for pat in ("debug/deps/*hannibal*", "debug/.fingerprint/hannibal*", "debug/incremental", "debug/deps/*_fail-*", "debug/deps/*_twin-*", "debug/.fingerprint/hannibal-witness-*"):
+            for x in glob.glob(os.path.join(tdir, pat)):
+                if os.path.isdir(x):
+                    shutil.rmtree(x, ignore_errors=True)
+                else:
+                    try:
+                        os.unlink(x)
+                    except OSError:
+                        pass
     p = subprocess.run(["cargo", "check", "--offline", "--bins", "--keep-going", "--message-format=json"], cwd=pkg, env=env, capture_output=True, text=True)
     errors = {}
     lib_broken = False
